@@ -217,6 +217,7 @@ class OpcodeNode(NodeProtocol):
         self.size = size
         self.file_info = file_info
         self.resolver = resolver
+        self.predicted_length: int | None = None
 
     def _get_emitter(self) -> OpcodeProtocol:
         try:
@@ -240,7 +241,9 @@ class OpcodeNode(NodeProtocol):
     def emit(self, current_pc: Address) -> bytes:
         opcode_emitter = self._get_emitter()
         try:
-            return opcode_emitter.emit(self.value_node, self.resolver, self.size)
+            node_bytes = opcode_emitter.emit(self.value_node, self.resolver, self.size)
+            self._check_length(len(node_bytes))
+            return node_bytes
         except NoOpcodeForOperandSize as e:
             assert self.value_node is not None
             guessed_size = guess_value_size(self.value_node, self.size)
@@ -256,7 +259,18 @@ class OpcodeNode(NodeProtocol):
 
     def pc_after(self, current_pc: Address) -> Address:
         opcode_emitter = self._get_emitter()
-        return current_pc + opcode_emitter.supposed_length(self.value_node, self.size)
+        length = opcode_emitter.supposed_length(self.value_node, self.size)
+        self._check_length(length)
+        self.predicted_length = length
+        return current_pc + length
+
+    def _check_length(self, length: int) -> None:
+        if self.predicted_length is not None and self.predicted_length != length:
+            raise NodeError(
+                f"{self.opcode} operand size changed after labels were placed "
+                f"({self.predicted_length} then {length} bytes), use an explicit size.",
+                self.file_info,
+            )
 
     def __str__(self) -> str:
         return f"OpcodeNode({self.opcode}, {self.addressing_mode}, {self.index}, {self.value_node})"
